@@ -124,6 +124,17 @@ Theorem C17_file_name_not_consulted : forall i b, model_p (set_base i b) = model
 Proof. exact frame_base. Qed.
 Print Assumptions C17_file_name_not_consulted.
 
+(* the request side plays no part either: the result, the moment the call has
+   returned by, the input contract and the property oracle are the same whatever
+   the size of the request, whether the plugin reads it, and whether a
+   descendant keeps the inherited stdin open *)
+Theorem C17_stdin_side_not_consulted : forall i large reads holds,
+  model_p (set_stdin i large reads holds) = model_p i /\
+  wf_p (set_stdin i large reads holds) = wf_p i /\
+  forall o, spec_p (set_stdin i large reads holds) o = spec_p i o.
+Proof. exact frame_stdin. Qed.
+Print Assumptions C17_stdin_side_not_consulted.
+
 (* for a CLIPlugin made the way CLIManager.Get and CLIManager.Install make it
    (path .../notation-<name>), accepted metadata names the file *)
 Theorem C17_name_is_file_name : forall i,
@@ -245,7 +256,7 @@ Example C17_example_bounded :
 Proof. reflexivity. Qed.
 
 Definition ex_in2 (cmd : cmd) (file : fkind) (exit : N) (deadline : option N) (out : sout) (elen : N) (e : serr) :=
-  mk_pinput cmd "foo" "notation-foo" file exit 0 None deadline 100 out elen e 9000.
+  mk_pinput cmd "foo" "notation-foo" file exit 0 None deadline 100 out elen e 9000 false true false.
 
 (* context already done, plugin "would" print an error: nothing ran *)
 Example C17_example_not_started :
